@@ -31,5 +31,27 @@ s = open(p).read()
 s = re.sub(r"(<!-- MUT-BEGIN -->).*?(<!-- MUT-END -->)", lambda m_: m_.group(1) + "\n" + mut + "\n" + m_.group(2), s, flags=re.S)
 s = re.sub(r"(<!-- SEED-BEGIN -->).*?(<!-- SEED-END -->)", lambda m_: m_.group(1) + "\n" + tbl + "\n" + m_.group(2), s, flags=re.S)
 s = re.sub(r"(<!-- COUNT-BEGIN -->).*?(<!-- COUNT-END -->)", lambda m_: m_.group(1) + f"Result: {total} seeded changes; {first} were detected by the quick tier of their own property as first built, {harmless} became harmless through a repair made meanwhile (the `M2E` iteration cap: detected on the tree before that repair), and {missed} were missed at first by their own property's check (some of them were caught by another property's check)." + m_.group(2), s, flags=re.S)
+# outcome per property, from KNOWN_FINDINGS.txt
+fx, kn = collections.defaultdict(list), collections.defaultdict(list)
+for l in open(os.path.join(HERE, "KNOWN_FINDINGS.txt")):
+    m_ = re.match(r"fixed: property=(C\d+) (\w+) (.*)", l)
+    if m_:
+        fx[m_.group(1)].append((m_.group(2), m_.group(3).strip()))
+    m_ = re.match(r"finding: property=(C\d+) key=(\S+) (.*)", l)
+    if m_:
+        kn[m_.group(1)].append(m_.group(3).strip())
+out = "| property | repaired (`fix:` commits) | known findings | what (commit, first words) |\n|---|---|---|---|\n"
+for k in [f"C{i:02d}" for i in range(1, 21)]:
+    what = "; ".join(f"`{c}` {t[:95]}" for c, t in fx[k])
+    if kn[k]:
+        what += " — **known:** " + "; ".join(t[:120] for t in kn[k])
+    out += f"| {k} | {len(fx[k])} | {len(kn[k])} | {what.replace('|', '/')} |\n"
+nfix = sum(len(v) for v in fx.values())
+nkn = sum(len(v) for v in kn.values())
+nreg = len(glob.glob(os.path.join(HERE, "regress", "*", "*.json")))
+if "<!-- OUTCOME-BEGIN -->" in s:
+    s = re.sub(r"(<!-- OUTCOME-BEGIN -->).*?(<!-- OUTCOME-END -->)", lambda m_: m_.group(1) + "\n" + out + m_.group(2), s, flags=re.S)
+s = re.sub(r"\*\*Defects repaired\.\*\* \d+ `fix:` commits", f"**Defects repaired.** {nfix} `fix:` commits", s)
+s = re.sub(r"holds \d+ shrunk failing inputs", f"holds {nreg} shrunk failing inputs", s)
 open(p, "w").write(s)
-print(total, first, harmless, missed)
+print(total, first, harmless, missed, "fixes", nfix, "known", nkn, "regress", nreg)
